@@ -71,7 +71,7 @@ def one_case(out: Outcome, rng, cls: str, p: dict, pre: list, post: list, runner
     b = dets.Runner("a", cls, p)
     feed(cls, b, post, state)
     runners.extend([a, b])
-    if a.err is None and b.err is None and (cls != "KSWIN" or (a.tape_ok and b.tape_ok)):
+    if a.err is None and b.err is None and not (a.own_generator or b.own_generator):
         try:
             ra, rf = dets.public_reads(a.det), dets.public_reads(b.det)
             for name in sorted(ra):
@@ -89,7 +89,9 @@ def one_case(out: Outcome, rng, cls: str, p: dict, pre: list, post: list, runner
             out.violation(f"BOCD: the run-length table after reset() + {len(post)} updates (shape {ta.shape}) differs from a fresh instance's (shape {tb.shape})", rep)
     # KSWIN is compared from equal states of NumPy's GLOBAL generator; if the detector does not draw from it (checked by the runners), the two instances
     # are not comparable that way and a difference is a broken assumption of this check, not a verdict
-    report = out.violation if (cls != "KSWIN" or (a.tape_ok and b.tape_ok)) else out.mismatch
+    # (`own_generator`: the window was full and NO update moved the global generator.  A detector that draws from the global generator in another way than the model
+    # expects is still a deterministic function of that state: reset and new instance ARE comparable and a difference is a violation)
+    report = out.mismatch if (a.own_generator or b.own_generator) else out.violation
     for j, (x, y) in enumerate(zip(a.obs[k0:], b.obs)):
         if x is None or y is None:
             continue
@@ -113,7 +115,7 @@ def one_case(out: Outcome, rng, cls: str, p: dict, pre: list, post: list, runner
         feed(cls, f, xp, state)
         diff = next((j for j, (x, y) in enumerate(zip(c.obs[kc:], f.obs)) if x != y), None)
         if diff is not None:
-            (out.violation if (cls != "KSWIN" or (c.tape_ok and f.tape_ok)) else out.mismatch)(
+            (out.mismatch if (c.own_generator or f.own_generator) else out.violation)(
                 f"{cls}: output differs from a fresh instance at post-reset update {diff} (found by the search directed at a field that survives reset())",
                           {**rep, "post": xp, "post_index": diff})
             break
